@@ -25,9 +25,39 @@ def clientChanRun (max : Nat) (ops : List String) : Option String := do
     | .error _ => return String.intercalate " " (out.reverse ++ ["panic"])
   pure (String.intercalate " " (out.reverse ++ ["cap=" ++ toString s.snd.capacity, "cur=" ++ toString s.rcv.cur]))
 
+/-- the schedule the harness produces, in terms of the model with messages in flight: after an operation of the sender
+the broker handles the item, the receiver's client delivers it and the sender's client delivers the announcement (if
+any); after a take the broker handles the grant and the sender's client delivers the announcement -/
+def expand : Op → List AOp
+  | .send => [.app .send, .brokerItem, .deliverItem, .deliverAnn]
+  | .take => [.app .take, .brokerGrant, .deliverAnn]
+  | op => [.app op]
+
+def clientChanRunA (max : Nat) (ops : List String) : Option String := do
+  let mut s := ASys.ofSys (init max)
+  let mut out : List String := []
+  for t in ops do
+    let op ← match t with
+      | "s" => some Op.send | "t" => some Op.take | "c" => some Op.pollClosed | "r" => some Op.ready | _ => none
+    match arun s (expand op) with
+    | .ok (s', os) =>
+      s := s'
+      let word := match os with
+        | .app o :: rest => if rest.contains .cutOff then "cutoff" else obsText o
+        | _ => "?"
+      out := word :: out
+    | .error _ => return String.intercalate " " (out.reverse ++ ["panic"])
+  let rest := if s.sb = 0 ∧ s.br = 0 ∧ s.rb = [] ∧ s.bs = [] then [] else ["in-flight"]
+  pure (String.intercalate " " (out.reverse ++ ["cap=" ++ toString s.snd.capacity, "cur=" ++ toString s.rcv.cur] ++ rest))
+
+/-- both models answer; they have to agree -/
 def clientChanCmd (cmd : String) (args : List String) : Option String :=
   match cmd, args with
-  | "cch", m :: ops => do clientChanRun (← m.toNat?) ops
+  | "cch", m :: ops => do
+    let max ← m.toNat?
+    let a ← clientChanRun max ops
+    let b ← clientChanRunA max ops
+    pure (if a = b then a else "models-disagree: at rest `" ++ a ++ "` in flight `" ++ b ++ "`")
   | _, _ => none
 
 end Aldrin.Driver
